@@ -5,13 +5,15 @@ from fractions import Fraction
 from harness.core import numeval, tb
 from harness.props import _shared
 
-PROOF_MODULE = ["OdeVerif.Proofs.C02", "OdeVerif.Proofs.PipelineLossless", "OdeVerif.Proofs.RefineNumeric", "OdeVerif.Proofs.RefineSplit"]
-GENERATED = ["PyNumeric", "PySplit"]
+PROOF_MODULE = ["OdeVerif.Proofs.C02", "OdeVerif.Proofs.PipelineLossless", "OdeVerif.Proofs.RefineNumeric", "OdeVerif.Proofs.RefineSplit", "OdeVerif.Proofs.RefineFromOde", "OdeVerif.Proofs.RefineFromShapes", "OdeVerif.Proofs.RefineSubSystem"]
+GENERATED = ["PyNumeric", "PySplit", "PyFromOde", "PyFromShapes", "PySubSystem"]
 THEOREMS = ["OdeVerif.C02.split_lossless", "OdeVerif.C02.classify_lin_lt", "OdeVerif.C02.split_const_coeffs", "OdeVerif.C02.fromOde_lossless",
             "OdeVerif.C02.unit_row_value", "OdeVerif.C02.subsystem_lossless", "OdeVerif.C02.numericRhs_eq_row", "OdeVerif.C02.numericRhs_eq_userRhs",
             "OdeVerif.PipelineSpec.splitRow_lossless", "OdeVerif.PipelineSpec.splitRow_A_const", "OdeVerif.PipelineSpec.splitRow_b_const", "OdeVerif.PipelineSpec.unitRow_den", "OdeVerif.PipelineSpec.rows_lossless", "OdeVerif.PipelineSpec.numericRhs_lossless", "OdeVerif.PipelineSpec.analyse_numeric_rhs",
             "OdeVerif.Refine.numericExpressions_rows", "OdeVerif.Refine.numericExpressions_value",
-            "OdeVerif.Refine.splitLinInhomNonlin_refines", "OdeVerif.Refine.splitLinInhomNonlin_lin_index"]
+            "OdeVerif.Refine.splitLinInhomNonlin_refines", "OdeVerif.Refine.splitLinInhomNonlin_lin_index",
+            "OdeVerif.Refine.fromOdeReattach_refines",
+            "OdeVerif.Refine.fromShapesRows_unit_rows", "OdeVerif.Refine.fromShapesRows_top_row", "OdeVerif.Refine.subSystem_idx", "OdeVerif.Refine.subSystem_A_b", "OdeVerif.Refine.subSystem_c"]
 LEVEL = "proof"
 
 SIMPLIFY = [None, None, "sympy.logcombine(sympy.powsimp(sympy.expand(expr)))", "expr", "sympy.factor(expr)"]
